@@ -663,6 +663,10 @@ pub fn build(spec: &RecorderSpec) -> Model {
         let mut rng = Rng::new(spec.irregular.junk_pseed);
         let mut junk = vec![0u8; spec.irregular.junk_after_end as usize];
         rng.fill(&mut junk);
+        // odd junk seeds produce junk that starts like a Game End event (a look-alike of the doubled-end quirk)
+        if spec.irregular.junk_pseed % 2 == 1 {
+            junk[0] = L::CODE_END;
+        }
         bytes.extend_from_slice(&junk);
     }
     let raw_end = bytes.len();
